@@ -61,7 +61,7 @@ def c19():
 
 def c18():
     from harness import includes
-    return [includes.ReadNewFile()]
+    return [includes.ReadNewFile(), includes.DepsListing()]
 
 
 def c01():
@@ -91,7 +91,7 @@ def c16():
 
 def c12():
     from harness import debugger
-    return [debugger.TraceFaithful()]
+    return [debugger.TraceFaithful(), debugger.RawTrace()]
 
 
 def c03():
